@@ -463,6 +463,37 @@ def family_manifest_growth(rng, dbdir, opts, nops):
 FAMILIES_EXTRA = [('manifest-growth', family_manifest_growth)]
 
 
+def family_deep(rng, dbdir, opts, nops):
+    """data pushed level by level down to the deepest level (manual compactions of every level in turn), newer data above
+    it, directory listings and reads after each step, reopen"""
+    h = Hist(rng, dbdir, opts, rng.choice([6, 14]))
+    h.open()
+    for rnd in range(rng.range(1, 3)):
+        for k in h.keys:
+            if rng.chance(3, 4):
+                h.emit('put %s %s' % (proto.arg(h.spell(k)), h.val(True)))
+        h.emit('flushmem')
+        bottom = rng.choice([6, 6, 5, 4])
+        for lvl in range(0, bottom):
+            h.emit('compact %d * *' % lvl)
+            if rng.chance(1, 3):
+                h.emit('ls')
+        h.emit('ls')
+        h.read_all(sample=6)
+        if rng.chance(1, 2):
+            h.snap()
+        h.write_some(rng.range(1, 4), small=True)
+        if rng.chance(1, 2):
+            h.reopen()
+            h.emit('ls')
+            h.read_all(sample=6)
+    h.iter_walk(12)
+    h.read_all()
+    h.emit('ls')
+    h.emit('close')
+    return h.lines
+
+
 def family_casefold(rng, dbdir, opts, nops):
     """a comparator under which different byte strings are one user key (ASCII case folding): every write, delete, read and
     seek uses a random spelling, so overwrites and tombstones meet older versions spelled differently in other files"""
@@ -470,7 +501,7 @@ def family_casefold(rng, dbdir, opts, nops):
     return rng.choice([family_random, family_tombstones, family_snapshot_chain])(rng, dbdir, opts, nops)
 
 
-FAMILIES = [('random', family_random), ('snapshot-chain', family_snapshot_chain), ('tombstones', family_tombstones), ('disjoint', family_disjoint), ('casefold', family_casefold), ('l0chain', family_l0chain), ('splitkey', family_splitkey)]
+FAMILIES = [('random', family_random), ('snapshot-chain', family_snapshot_chain), ('tombstones', family_tombstones), ('disjoint', family_disjoint), ('casefold', family_casefold), ('l0chain', family_l0chain), ('splitkey', family_splitkey), ('deep', family_deep)]
 
 
 def gen_history(rng, dbdir, nops):
